@@ -31,21 +31,23 @@ YIELD_LABELS = ["L_probe", "L_load", "L_cas", "L_wlock", "L_locked", "F_wlock", 
 # shape -> (has forget thread, has readdirplus-not-delivered thread)
 SHAPES = {
     "1L1F": (True, False), "2L1F": (True, False), "1L2F": (True, False), "3L": (False, False),
-    "2N1F": (True, False), "2L2F": (True, False), "3L2F": (True, False), "LF2": (True, False),
+    "1LF2": (True, False), "1LBF": (True, False), "2L2F": (True, False), "3L2F": (True, False), "LF2": (True, False),
     "LBF": (True, False), "RF": (True, True), "RLF": (True, True), "RRF": (True, True),
 }
 MC_QUICK = ["2L1F", "1L2F", "3L", "RF"]
-MC_THOROUGH = MC_QUICK + ["1L1F", "2N1F", "LF2", "LBF", "RLF", "RRF", "2L2F", "3L2F"]
+MC_THOROUGH = MC_QUICK + ["1L1F", "1LF2", "1LBF", "LF2", "LBF", "RLF", "RRF", "2L2F", "3L2F"]
 # export configs: (cfg suffix, shape, mode, file-handle variants)
-X_QUICK = [("1L1F_x", "1L1F", "all", (False,)), ("1L2F_x", "1L2F", "all", (False,)), ("RF_x", "RF", "all", (False,)),
+X_QUICK = [("1L1F_x", "1L1F", "all", (False,)), ("1LF2_x", "1LF2", "all", (False,)), ("1LBF_x", "1LBF", "all", (False,)),
+           ("1L2F_x", "1L2F", "all", (False,)), ("RF_x", "RF", "all", (False,)),
            ("3L0_x", "3L", "all", (False,)), ("2L1F01_x", "2L1F", "all", (False,))]
 X_THOROUGH = [("1L1F_x", "1L1F", "all", (False, True)), ("1L2F_x", "1L2F", "all", (False, True)), ("RF_x", "RF", "all", (False, True)),
-              ("2L1F_x", "2L1F", "all", (False, True)), ("2N1F_x", "2N1F", "all", (False,)), ("LF2_x", "LF2", "all", (False,)),
+              ("2L1F_x", "2L1F", "all", (False, True)), ("1LF2_x", "1LF2", "all", (False, True)), ("1LBF_x", "1LBF", "all", (False, True)), ("LF2_x", "LF2", "all", (False,)),
               ("3L_x", "3L", "all", (False,)), ("LBF_x", "LBF", "all", (False,)), ("RLF_x", "RLF", "all", (False,)),
               ("RRF_x", "RRF", "all", (False,)), ("2L2F_sim", "2L2F", "sim", (False,)), ("3L2F_sim", "3L2F", "sim", (False,))]
 QUICK_CAP = 16000          # schedules replayed per config in the quick tier (all of them below the cap)
 SIM_WALKS = 6000           # per TLC worker (x4)
-SHARD = 3000               # schedules per harness process
+SHARD = 2000               # schedules per harness process
+BATCH = 30000              # events per TLC judge run (small trace files are concatenated)
 PAR = 6
 
 
@@ -106,7 +108,7 @@ def export(ctx, cfg, mode):
 def judge_file(ctx, path):
     """One TLC run of Trace_PtConc on `path`. Returns (accepted, stuck_index, distinct states, output)."""
     args = ["-workers", "1", "-metadir", _meta(ctx, "j"), "-noGenerateSpecTE", "-config", "Trace_PtConc.cfg", "Trace_PtConc.tla"]
-    r = C._java(args, C.SPEC, {"TRACE": path}, 3000, xmx="6g", xss="1g", deque=True)
+    r = C._java(args, C.SPEC, {"TRACE": path}, 3000, xmx="3g", xss="1g", deque=True)
     out = r.stdout
     acc = re.search(r'<<\s*"ACCEPTED"', out) is not None
     m = re.search(r'<<\s*"STUCK",\s*(\d+)', out)
@@ -182,31 +184,56 @@ def report_rejects(ctx, what, header, scheds_by_sid, rej, mode):
                             "history": [x for x in r["rows"] if x.get("e") != "Reset"][:40]}, replay_src=scen)
 
 
-def replay_and_judge(ctx, bindir, tag, header, scheds, stats):
-    """Write the schedule file, replay it in shards on the real code, judge every shard."""
+def write_schedules(ctx, tag, header, scheds):
     sf = ctx.path("sched_%s.ndjson" % tag)
     with open(sf, "w") as f:
         f.write(json.dumps(header) + "\n")
         for s in scheds:
             f.write(json.dumps(s, separators=(",", ":")) + "\n")
-    nsh = max(1, min(16, math.ceil(len(scheds) / SHARD)))
+    return sf, max(1, min(16, math.ceil(len(scheds) / SHARD)))
+
+
+def replay_shard(ctx, bindir, tag, sf, sh, nsh):
+    """One harness process: replay the schedules of shard sh on the real code."""
     wd = ctx.path("fs")
     os.makedirs(wd, exist_ok=True)
+    out = ctx.path("trace_%s_%d.ndjson" % (tag, sh))
+    r = C.run_bin(bindir, "ptconc", ["sched", sf, wd, out, sh, nsh], env={"VERIF_SEED": ctx.seed}, timeout=3000, ok_codes=(0, 3))
+    summ = json.loads(r.stdout.strip().splitlines()[-1])
+    drift = []
+    sp = out + ".sched"
+    if os.path.exists(sp):
+        for row in C.read_ndjson(sp):
+            if row.get("label_mismatch") or row.get("skipped") or row.get("leftover") or row.get("hang"):
+                drift.append({k: row.get(k) for k in ("sid", "r0", "label_mismatch", "skipped", "leftover", "watchdog", "predicted", "followed")})
+    with open(out) as f:
+        nev = sum(1 for _ in f)
+    return tag, summ, out, nev, drift
 
-    def one(sh):
-        out = ctx.path("trace_%s_%d.ndjson" % (tag, sh))
-        r = C.run_bin(bindir, "ptconc", ["sched", sf, wd, out, sh, nsh], env={"VERIF_SEED": ctx.seed}, timeout=3000, ok_codes=(0, 3))
-        summ = json.loads(r.stdout.strip().splitlines()[-1])
-        j = judge(ctx, out)
-        drift = []
-        sp = out + ".sched"
-        if os.path.exists(sp):
-            for row in C.read_ndjson(sp):
-                if row.get("label_mismatch") or row.get("skipped") or row.get("leftover") or row.get("hang"):
-                    drift.append({k: row.get(k) for k in ("sid", "r0", "label_mismatch", "skipped", "leftover", "watchdog", "predicted", "followed")})
-        return summ, j, drift
 
-    return [(sh, nsh, one) for sh in range(nsh)], sf
+def batches(files):
+    """Pack trace files [(path, events)] into judge batches of at most BATCH events (big files alone)."""
+    out, cur, n = [], [], 0
+    for p, ev in sorted(files, key=lambda x: -x[1]):
+        if cur and n + ev > BATCH:
+            out.append(cur)
+            cur, n = [], 0
+        cur.append(p)
+        n += ev
+    if cur:
+        out.append(cur)
+    return out
+
+
+def judge_batch(ctx, k, paths):
+    if len(paths) == 1:
+        return judge(ctx, paths[0])
+    p = ctx.path("batch_%d.ndjson" % k)
+    with open(p, "wb") as o:
+        for q in paths:
+            with open(q, "rb") as f:
+                shutil.copyfileobj(f, o)
+    return judge(ctx, p)
 
 
 def harness_bindir():
@@ -250,7 +277,7 @@ def run_c09(ctx):
     C.log("model checking done (%.0fs)" % (time.time() - t0))
     mutation = {"mutant": "SkipZeroRetry (CAS on a count read as 0)", "violated": rm["violated"], "distinct_states": rm["distinct"]}
 
-    # --- 2./3. export interleavings, replay on the real code, judge
+    # --- 2. export interleavings and replay them on the real code (one harness process per shard)
     jobs = []
     exports = []
     sched_index = {}
@@ -270,71 +297,89 @@ def run_c09(ctx):
             tag = "%s_%s" % (cfg, "fh" if fh else "fd")
             header = {"cfg": tag, "threads": ops, "fh": fh}
             sched_index[tag] = (header, scheds)
-            tasks, _ = replay_and_judge(ctx, bindir, tag, header, scheds, None)
-            for sh, nsh, fn in tasks:
-                jobs.append((tag, sh, nsh, ex.submit(fn, sh)))
+            sf, nsh = write_schedules(ctx, tag, header, scheds)
+            for sh in range(nsh):
+                jobs.append(ex.submit(replay_shard, ctx, bindir, tag, sf, sh, nsh))
 
-    # stress (free running), judged the same way
+    # stress (free running, random delays at the yield points)
     def stress(i, iters):
         out = ctx.path("stress_%d.ndjson" % i)
         wd = ctx.path("fs")
         os.makedirs(wd, exist_ok=True)
-        r = C.run_bin(bindir, "ptconc", ["stress", wd, out, iters], env={"VERIF_SEED": ctx.seed * 1000 + i, "PTCONC_PERTURB": 1}, timeout=3000)
-        return json.loads(r.stdout.strip().splitlines()[-1]), judge(ctx, out), i
-    n_stress, it_stress = (2, 400) if ctx.quick else (8, 6000)
+        r = C.run_bin(bindir, "ptconc", ["stress", wd, out, iters], env={"VERIF_SEED": ctx.seed * 1000 + i, "PTCONC_PERTURB": 1},
+                      timeout=3000, ok_codes=(0, 3))
+        with open(out) as f:
+            nev = sum(1 for _ in f)
+        return json.loads(r.stdout.strip().splitlines()[-1]), out, nev
+    n_stress, it_stress = (1, 600) if ctx.quick else (8, 6000)
     fut_s = [ex.submit(stress, i, it_stress) for i in range(n_stress)]
+    C.log("exports done, %d replay shards + %d stress runs queued (%.0fs)" % (len(jobs), n_stress, time.time() - t0))
 
-    C.log("exports done, %d replay shards queued (%.0fs)" % (len(jobs), time.time() - t0))
     per_cfg = {}
     labels = {}
     windows = {}
-    first_rows = None
-    for tag, sh, nsh, f in jobs:
-        summ, j, drift = f.result()
-        d = per_cfg.setdefault(tag, {"schedules": 0, "events": 0, "judge_states": 0, "drift_schedules": 0, "drift_steps": 0,
-                                     "label_mismatch": 0, "blocked_detected": 0, "watchdog_timeouts": 0, "hangs": 0, "rejected": 0, "wall_ms": 0})
+    files = []
+    for f in jobs:
+        tag, summ, out, nev, drift = f.result()
+        d = per_cfg.setdefault(tag, {"schedules": 0, "events": 0, "drift_schedules": 0, "drift_steps": 0, "label_mismatch": 0,
+                                     "blocked_detected": 0, "watchdog_timeouts": 0, "hangs": 0, "rejected": 0, "wall_ms": 0})
         d["schedules"] += summ.get("schedules", 0)
-        d["events"] += j["events"]
-        d["judge_states"] += j["states"]
+        d["events"] += nev
         for k_, s_ in (("drift_schedules", "drift_schedules"), ("drift_steps", "drift_steps"), ("label_mismatch", "label_mismatch"),
                        ("blocked_detected", "watchdog"), ("watchdog_timeouts", "watchdog_timeouts"), ("hangs", "hangs")):
             d[k_] += summ.get(s_, 0)
         d["wall_ms"] = max(d["wall_ms"], summ.get("wall_ms", 0))
-        d["rejected"] += len(j["rejected"])
         for k_, v_ in summ.get("labels", {}).items():
             labels[k_] = labels.get(k_, 0) + v_
         for k_, v_ in summ.get("windows", {}).items():
             windows[k_] = windows.get(k_, 0) + v_
-        ctx.traces += j["segments"]
-        ctx.events += j["events"]
-        ctx.states += j["states"]
-        ctx.transitions += j["states"]
-        if j["unjudged"]:
-            C.log("note: %d segments of %s shard %d left unjudged after %d rejections" % (j["unjudged"], tag, sh, len(j["rejected"])))
-        header, scheds = sched_index[tag]
-        by_sid = {i: s for i, s in enumerate(scheds)}
-        report_rejects(ctx, tag, header, by_sid, j["rejected"], "sched")
+        files.append((out, nev))
         for x in drift[:3]:
             if len(ctx.drift) < 12:
                 ctx.drift.append(dict(x, config=tag))
-        if not j["rejected"] and summ.get("schedules", 0) >= 12 and (first_rows is None or tag.startswith("1L2F")):
-            first_rows = C.read_ndjson(ctx.path("trace_%s_%d.ndjson" % (tag, sh)))
-
-    C.log("replay + judging done (%.0fs)" % (time.time() - t0))
-    stress_stats = {"runs": 0, "iterations": 0, "ops": 0, "events": 0, "rejected": 0, "judge_states": 0}
+    stress_stats = {"runs": 0, "iterations": 0, "ops": 0, "events": 0, "hangs": 0, "rejected": 0}
     for f in fut_s:
-        summ, j, i = f.result()
+        summ, out, nev = f.result()
         stress_stats["runs"] += 1
         stress_stats["iterations"] += summ["iterations"]
         stress_stats["ops"] += summ["ops"]
-        stress_stats["events"] += j["events"]
-        stress_stats["judge_states"] += j["states"]
-        stress_stats["rejected"] += len(j["rejected"])
+        stress_stats["events"] += nev
+        stress_stats["hangs"] += summ.get("hangs", 0)
+        files.append((out, nev))
+    C.log("replay on the real code done: %d schedules, %d stress iterations (%.0fs)" % (
+        sum(d["schedules"] for d in per_cfg.values()), stress_stats["iterations"], time.time() - t0))
+
+    # --- 3. TLC judges every recorded history (segments are independent: files are batched)
+    bs = batches(files)
+    first_rows = None
+    judge_states = 0
+    futs = [ex.submit(judge_batch, ctx, k, paths) for k, paths in enumerate(bs)]
+    for (k, paths), f in zip(enumerate(bs), futs):
+        j = f.result()
         ctx.traces += j["segments"]
         ctx.events += j["events"]
         ctx.states += j["states"]
         ctx.transitions += j["states"]
-        report_rejects(ctx, "stress", {"seed": ctx.seed * 1000 + i, "iterations": it_stress}, None, j["rejected"], "stress")
+        judge_states += j["states"]
+        if j["unjudged"]:
+            C.log("note: %d segments of judge batch %d left unjudged after %d rejections" % (j["unjudged"], k, len(j["rejected"])))
+        for r in j["rejected"]:
+            tag = r["reset"].get("cfg")
+            if tag == "stress":
+                stress_stats["rejected"] += 1
+                report_rejects(ctx, "stress", {"seed": r["reset"].get("seed"), "iterations": it_stress}, None, [r], "stress")
+            else:
+                per_cfg[tag]["rejected"] += 1
+                header, scheds = sched_index[tag]
+                report_rejects(ctx, tag, header, {r["reset"].get("sid"): scheds[r["reset"].get("sid")]}, [r], "sched")
+        if not j["rejected"] and first_rows is None and len(paths) == 1 and not paths[0].endswith("stress_0.ndjson"):
+            first_rows = C.read_ndjson(paths[0])[:400]
+    if first_rows is None:
+        for k, paths in enumerate(bs):
+            if not futs[k].result()["rejected"]:
+                first_rows = C.read_ndjson(paths[0])[:400]
+                break
+    C.log("judging done: %d batches (%.0fs)" % (len(bs), time.time() - t0))
 
     # --- coverage gate: every yield point and every racing window was really reached in the replay
     # (when violations were found they are the result; a code change that removes a window is then expected)
@@ -366,6 +411,7 @@ def run_c09(ctx):
         "mutation_selftest": mutation,
         "exports": exports,
         "replay": per_cfg,
+        "judge_states": judge_states,
         "schedules_replayed_on_real_code": total_sched,
         "model_drift_schedules": drift_total,
         "yield_points_reached": labels,
@@ -441,9 +487,10 @@ def binding_demo(ctx, rows):
         return [r for i, r in enumerate(bad) if not (s[0] <= i < s[1] and r["e"] == "Probe")]
 
     with cf.ThreadPoolExecutor(max_workers=5) as ex:
-        fs = [ex.submit(run, n, m, 0) for n, m in (("lookup Ret value + 1", m_ret), ("Probe refcount + 1", m_probe),
-                                                   ("Probe drain + 1", m_drain), ("drop one Ret event", m_drop),
-                                                   ("drop the probes of one segment", m_order))]
+        muts = [("lookup Ret value + 1", m_ret), ("Probe refcount + 1", m_probe), ("drop one Ret event", m_drop)]
+        if not ctx.quick:
+            muts += [("Probe drain + 1", m_drain), ("drop the probes of one segment", m_order)]
+        fs = [ex.submit(run, n, m, 0) for n, m in muts]
         for f in fs:
             f.result()
     return demos
@@ -471,7 +518,7 @@ def run_replay(ctx):
         report_rejects(ctx, scen["header"].get("cfg", "?"), scen["header"], {i: scen["schedule"] for i in range(50)}, j["rejected"], "sched")
     elif scen.get("mode") == "stress":
         out = ctx.path("replay_stress.ndjson")
-        C.run_bin(bindir, "ptconc", ["stress", wd, out, scen["header"]["iterations"]], env={"VERIF_SEED": scen["header"]["seed"], "PTCONC_PERTURB": 1}, timeout=3000)
+        C.run_bin(bindir, "ptconc", ["stress", wd, out, scen["header"]["iterations"]], env={"VERIF_SEED": scen["header"]["seed"], "PTCONC_PERTURB": 1}, timeout=3000, ok_codes=(0, 3))
         j = judge(ctx, out)
         ctx.traces += j["segments"]
         ctx.events += j["events"]
